@@ -17,6 +17,7 @@ import random
 from .. import ezspref as X
 from .. import vloop, ncpsim, valuegen
 from ..runner import Acc
+from .. import logmode
 from ..contracts import install_status_contract
 
 PROPERTY = "C06"
@@ -473,7 +474,7 @@ def shards(tier, seed):
 
 
 def run_shard(desc) -> Acc:
-    logging.disable(logging.CRITICAL)
+    logmode.apply(desc)
     acc = Acc()
     install_status_contract(acc)
     V = desc["version"]
